@@ -53,8 +53,16 @@ func pathOfD(v ssa.Value, d int) string {
 	}
 	switch x := v.(type) {
 	case *ssa.Parameter:
+		// The receiver is named canonically so that renaming it does not change paths.
+		if fn := x.Parent(); fn != nil && fn.Signature != nil && fn.Signature.Recv() != nil && len(fn.Params) > 0 && fn.Params[0] == x {
+			return "recv"
+		}
 		return x.Name()
 	case *ssa.FreeVar:
+		// A captured variable denotes what it was bound to in the enclosing function.
+		if b := freeVarBinding(x); b != nil {
+			return pathOfD(b, d+1)
+		}
 		return x.Name()
 	case *ssa.Global:
 		return x.Name()
@@ -101,6 +109,14 @@ func pathOfD(v ssa.Value, d int) string {
 		}
 		return pathOfD(x.Tuple, d+1) + fmt.Sprintf(".#%d", x.Index)
 	case *ssa.Alloc:
+		// the spill slot of a captured receiver is still the receiver
+		if fn := x.Parent(); fn != nil && fn.Signature != nil && fn.Signature.Recv() != nil && len(fn.Params) > 0 && x.Comment == fn.Params[0].Name() && x.Referrers() != nil {
+			for _, r := range *x.Referrers() {
+				if st, ok := r.(*ssa.Store); ok && st.Addr == x && st.Val == fn.Params[0] {
+					return "recv"
+				}
+			}
+		}
 		if x.Comment != "" {
 			return x.Comment
 		}
@@ -599,4 +615,46 @@ func Reaching(m M, depth int) M {
 		}
 		return contains(c.Common().StaticCallee(), depth-1, map[*ssa.Function]bool{})
 	}}
+}
+
+// freeVarBinding finds the value a closure's free variable was bound to where the closure was
+// created (in the parent function).
+func freeVarBinding(fv *ssa.FreeVar) ssa.Value {
+	fn := fv.Parent()
+	if fn == nil || fn.Parent() == nil {
+		return nil
+	}
+	idx := -1
+	for i, v := range fn.FreeVars {
+		if v == fv {
+			idx = i
+		}
+	}
+	if idx < 0 {
+		return nil
+	}
+	for _, b := range fn.Parent().Blocks {
+		for _, in := range b.Instrs {
+			if mc, ok := in.(*ssa.MakeClosure); ok && mc.Fn == ssa.Value(fn) && idx < len(mc.Bindings) {
+				return mc.Bindings[idx]
+			}
+		}
+	}
+	return nil
+}
+
+// ParamName returns the name of fn's i-th parameter (0 = receiver for methods).
+func ParamName(fn *ssa.Function, i int) string {
+	if fn == nil || i >= len(fn.Params) {
+		return "‹no such parameter›"
+	}
+	return fn.Params[i].Name()
+}
+
+// derefT strips one pointer level.
+func derefT(t types.Type) types.Type {
+	if p, ok := t.Underlying().(*types.Pointer); ok {
+		return p.Elem()
+	}
+	return t
 }
